@@ -202,7 +202,7 @@ pub fn verify_hostile(ctx: &Ctx, rep: &mut Report) {
 /// with the reference hash only; see C14 extremes): the hashing step of verify under the panic
 /// monitor on inputs that typical workloads never produce.
 pub fn hash_extremes(ctx: &Ctx, rep: &mut Report) {
-    let xs = super::c14::extreme_inputs(ctx.seed ^ 0x33, ctx.sz(4_000_000, 120_000_000), ctx.sz(3000, 60000));
+    let xs = super::c14::extreme_inputs(ctx.seed ^ 0x33, ctx.sz(8_000_000, 300_000_000), ctx.sz(3000, 60000));
     let mut rng = rng_for(ctx.seed, "c03-hx");
     let pk5 = synth_pk::<F512>(&mut rng);
     let pk10 = synth_pk::<F1024>(&mut rng);
@@ -225,7 +225,7 @@ pub fn hash_extremes(ctx: &Ctx, rep: &mut Report) {
         }
     }
     if let Some((c, s)) = xs.first() {
-        rep.sample(json!({"salt_and_message": hex(s), "chunks_consumed_for_512_coefficients": c, "typical": 546}));
+        rep.sample(json!({"salt_and_message": hex(s), "extremeness_score": c}));
     }
     rep.require("hash_extreme_inputs", 100);
 }
